@@ -163,7 +163,7 @@ def _apply(W, kind, op, names):
 
 def _displace_concrete(B, case):
     """one Displace operation object applied to two concrete states with equal highest occupied level but different
-    amplitudes: each result must be within 5e-3 of the ideal displaced state (the dimension estimate depends on the
+    amplitudes: each result must be within 2e-3 of the ideal displaced state (the dimension estimate depends on the
     amplitudes, so a stale estimate from the first application truncates the second)"""
     import numpy as np
     import scipy.linalg as sl
@@ -175,7 +175,7 @@ def _displace_concrete(B, case):
     w, seq = _world("fock.DisplaceConcrete")
     W = World(B, w)
     alpha = 2.0
-    vecs = {"f0": np.array([0.995, 0, 0, 0.0998749]), "f1": np.array([0.1, 0, 0, 0.9949874])}
+    vecs = {"f0": np.array([0.99995, 0, 0, 0.01]), "f1": np.array([0.1, 0, 0, 0.9949874])}
     for n, v in vecs.items():
         v = v / np.linalg.norm(v)
         W.sub(n).state = B.jnp.array(v.reshape(4, 1).astype(complex))
@@ -198,7 +198,7 @@ def _displace_concrete(B, case):
         d = len(got)
         err = float(np.max(np.abs(got - want[:d])))
         lost = float(np.sum(np.abs(want[d:]) ** 2))
-        B.require_structural(err <= 5e-3 and lost <= 1e-4,
+        B.require_structural(err <= 2e-3 and lost <= 1e-4,
                              f"C15: application {step + 1} of one Displace object deviates from the ideal displaced state "
                              f"(the result must not depend on what the object was applied to before)", detail={"err": err, "lost": lost, "dim": d})
 
